@@ -307,6 +307,27 @@ fn grid(thorough: bool) -> Vec<Cfg> {
         }
     }
     let _ = k;
+    if !thorough {
+        // Transmissions longer than one stream buffer (8 x 300 bytes at 1200
+        // baud is 700 k samples; a Complex stream holds 512 k): a few in quick
+        // too, at every rate, on both runners.
+        for (i, rate) in rates1200.iter().enumerate() {
+            for mt in [false, true] {
+                v.push(Cfg {
+                    baud: 1200,
+                    rate: *rate,
+                    family: ["counting", "3f", "ones"][i].to_string(),
+                    len: 300,
+                    frames: 8,
+                    between: 2,
+                    preamble: 20,
+                    phase: 0.0,
+                    timing: 0.25 * i as f64,
+                    mt,
+                });
+            }
+        }
+    }
     v
 }
 
